@@ -77,4 +77,20 @@ CHECKS = {
            "trusted; numpy indexing as modelled; document round trip is _partial: open findings C18:doc-cell-and-morphology-share-name "
            "and C18:doc-cell-morphology-named-vertices."),
  },
+ "C03": {
+  "category": "proof",
+  "technique": "Lean 4 proof over tables regenerated from nml.py and the XSD (kernel-checked agreement) + validate-walk correspondence + libxml2 oracle",
+  "design_ref": "DESIGN.md §5 C03",
+  "text": ("Model of the repaired GeneratedsSuperSuper.validate walk over the regenerated binding table. c03_any_depth_any_class: a failing "
+           "generated check of ANY class in the MRO of ANY descendant (own or inherited member, any depth) makes validate(recursive=True) "
+           "fail; c03_schema/c03_today lift this to every constraint the bundled XSD puts on a member (required attribute, simple-type "
+           "facet, child cardinality) through the per-run kernel-checked obligations tables_agree (validate_ checks exactly the items the "
+           "schema prescribes, class by class) and facets_agree (every validate_<SimpleType> copy carries the schema's facets). "
+           "c03_old_walk_witness documents the repaired defect, c03_choice_required_witness the open finding. Tied by translators + a "
+           "correspondence of the model walk with the real verdict on valid and single-violation trees; libxml2 is the oracle."),
+  "note": ("Trusted: both translators; simple-type validity abstract in the theorems (facets compared syntactically; Python re vs XSD regex "
+           "trusted for the dialect used); libxml2 as oracle; file-level wrappers sampled. Partial: required choice groups are not checked by "
+           "the generated code (open finding C03:choice-required), so the full statement C03_full is refuted by a witness and c03_schema is "
+           "the part that holds."),
+ },
 }
